@@ -20,4 +20,18 @@ int sim_peek_note_linked (void *note) {
 	struct nsync_note_s_ *n = (struct nsync_note_s_ *) note;
 	return (n->parent != NULL || n->children != NULL);
 }
+/* Whether *n has a child in its list that no thread is disconnecting: after nsync_note_free (n) has scanned its
+   children this is an orphan that was adopted too late (the listed "adoption into a dying parent" finding).  */
+int sim_peek_note_has_idle_child (void *note) {
+	struct nsync_note_s_ *n = (struct nsync_note_s_ *) note;
+	nsync_dll_element_ *p;
+	int guard = 0;
+	for (p = nsync_dll_first_ (n->children); p != NULL && guard++ < 64; p = nsync_dll_next_ (n->children, p)) {
+		struct nsync_note_s_ *c = (struct nsync_note_s_ *) p->container;
+		if (c->disconnecting == 0) {
+			return (1);
+		}
+	}
+	return (0);
+}
 NSYNC_C_END_
